@@ -552,6 +552,93 @@ def attribute_aliases(stmts: list) -> list:
     return out
 
 
+# ----------------------------------------------------------------------- named intermediate results used at once
+def _own_exprs(s):
+    """(field, expression) pairs a statement evaluates itself, before any nested block runs."""
+    if isinstance(s, (ast.If, ast.While)):
+        return [('test', s.test)]
+    if isinstance(s, (ast.Return, ast.Expr)) and s.value is not None:
+        return [('value', s.value)]
+    if isinstance(s, (ast.Assign, ast.AnnAssign, ast.AugAssign)) and getattr(s, 'value', None) is not None:
+        return [('value', s.value)]
+    if isinstance(s, ast.Raise) and s.exc is not None:
+        return [('exc', s.exc)]
+    return []
+
+
+def adjacent_temps(block: list, whole_body: list) -> list:
+    """`t = E` directly followed (possibly through further such bindings) by ONE statement whose own expression is the only
+    place where t is used: the name is replaced by E there (`ok = a and b; if not ok: ...` -> `if not (a and b): ...`).
+    E is duplicated only when it has no call that could have an effect."""
+    from .symex import pure
+    whole = ast.Module(body=whole_body, type_ignores=[])
+    stores, loads = {}, {}
+    for n in ast.walk(whole):
+        if isinstance(n, ast.Name):
+            d = stores if isinstance(n.ctx, (ast.Store, ast.Del)) else loads
+            d[n.id] = d.get(n.id, 0) + 1
+    out = list(block)
+    for st in out:
+        for field in ('body', 'orelse', 'finalbody'):
+            v = getattr(st, field, None)
+            if isinstance(v, list) and v and isinstance(v[0], ast.stmt) and not isinstance(st, (ast.FunctionDef, ast.AsyncFunctionDef, ast.ClassDef)):
+                setattr(st, field, adjacent_temps(v, whole_body))
+        if isinstance(st, ast.Try):
+            for h in st.handlers:
+                h.body = adjacent_temps(h.body, whole_body)
+    i = 0
+    while i < len(out):
+        nm, val = _single_name_assign(out[i])
+        if nm is None or stores.get(nm) != 1 or not loads.get(nm) or isinstance(val, (ast.Lambda, ast.ListComp, ast.List, ast.Dict, ast.Set,
+                                                                                       ast.DictComp, ast.SetComp, ast.GeneratorExp)):
+            i += 1
+            continue
+        # the run of bindings that follows, then the consumer
+        j = i + 1
+        while j < len(out) and _single_name_assign(out[j])[0] is not None and j - i < 6:
+            # a later binding of the run may itself be the consumer; stop the run at the first statement that is not a pure
+            # binding of a once-bound name
+            n2, v2 = _single_name_assign(out[j])
+            if stores.get(n2) != 1:
+                break
+            j += 1
+        if j >= len(out):
+            j = len(out) - 1
+        span = out[i + 1:j + 1]
+        used = 0
+        for k, t in enumerate(span):
+            for _, e in _own_exprs(t):
+                used += sum(1 for n in ast.walk(e) if isinstance(n, ast.Name) and n.id == nm and isinstance(n.ctx, ast.Load))
+        if used != loads.get(nm) or used == 0:
+            i += 1
+            continue
+        if used > 1 and not pure(val):
+            i += 1
+            continue
+        # the names E reads must not be re-bound inside the span before the use (bindings of the run bind other names: checked by
+        # the single-store condition together with this test)
+        reads = loads_of(val)
+        if any(_single_name_assign(t)[0] in reads for t in span):
+            i += 1
+            continue
+        if not pure(val):
+            # an effectful E moves past the other bindings of the run: only when it is used by the very next statement
+            first_user = next((k for k, t in enumerate(span) if any(mentions(nm, e) for _, e in _own_exprs(t))), None)
+            if first_user != 0:
+                i += 1
+                continue
+        for t in span:
+            for field, e in _own_exprs(t):
+                setattr(t, field, Subst({nm: val}).visit(e))
+            ast.fix_missing_locations(t)
+        del out[i]
+    return out
+
+
+def loads_of(e) -> set:
+    return {n.id for n in ast.walk(e) if isinstance(n, ast.Name)}
+
+
 # ----------------------------------------------------------------------- 4. conditional expressions -> statements
 def lift_ifexp(stmts: list) -> list:
     out = []
@@ -567,16 +654,74 @@ def lift_ifexp(stmts: list) -> list:
     return out
 
 
-def _lift_one(s) -> list:
+def _find_ifexp(e, path=()):
+    """First conditional expression at a position of `e` that is evaluated unconditionally -> (parent, field, index) or None."""
+    def kids(n):
+        if isinstance(n, ast.Call):
+            out = []
+            if isinstance(n.func, ast.Attribute):
+                out.append((n.func, 'value', None))
+            out += [(n, 'args', i) for i in range(len(n.args)) if not isinstance(n.args[i], ast.Starred)]
+            out += [(k, 'value', None) for k in n.keywords]
+            return out
+        if isinstance(n, ast.Attribute):
+            return [(n, 'value', None)]
+        if isinstance(n, ast.Subscript):
+            return [(n, 'value', None), (n, 'slice', None)]
+        if isinstance(n, ast.BinOp):
+            return [(n, 'left', None), (n, 'right', None)]
+        if isinstance(n, ast.UnaryOp):
+            return [(n, 'operand', None)]
+        if isinstance(n, ast.Compare):
+            return [(n, 'left', None)] + ([(n, 'comparators', 0)] if len(n.comparators) == 1 else [])
+        if isinstance(n, ast.BoolOp):
+            return [(n, 'values', 0)]
+        if isinstance(n, (ast.Tuple, ast.List)):
+            return [(n, 'elts', i) for i in range(len(n.elts)) if not isinstance(n.elts[i], ast.Starred)]
+        if isinstance(n, ast.JoinedStr):
+            return []
+        return []
+    for parent, field, idx in kids(e):
+        child = getattr(parent, field)
+        child = child[idx] if idx is not None else child
+        if isinstance(child, ast.IfExp):
+            return parent, field, idx
+        r = _find_ifexp(child)
+        if r is not None:
+            return r
+    return None
+
+
+def _lift_one(s, depth=0) -> list:
     v = getattr(s, 'value', None)
     if isinstance(s, (ast.Assign, ast.AnnAssign, ast.Return, ast.AugAssign)) and isinstance(v, ast.IfExp):
         def mk(val):
             c = clone(s)
             c.value = val
             return c
-        a = _lift_one(mk(v.body))
-        b = _lift_one(mk(v.orelse))
+        a = _lift_one(mk(v.body), depth + 1)
+        b = _lift_one(mk(v.orelse), depth + 1)
         return [at(ast.If(test=v.test, body=a, orelse=b), s)]
+    if depth < 3 and isinstance(s, (ast.Assign, ast.AnnAssign, ast.Return, ast.AugAssign, ast.Expr)) and v is not None:
+        # a conditional argument: f(a if c else b)  ->  if c: f(a) else: f(b)
+        variants = []
+        test = None
+        for pick in ('body', 'orelse'):
+            c = clone(s)
+            r = _find_ifexp(c.value)
+            if r is None:
+                return [s]
+            parent, field, idx = r
+            node = getattr(parent, field)
+            node = node[idx] if idx is not None else node
+            test = node.test
+            repl = getattr(node, pick)
+            if idx is not None:
+                getattr(parent, field)[idx] = repl
+            else:
+                setattr(parent, field, repl)
+            variants.append(c)
+        return [at(ast.If(test=test, body=_lift_one(variants[0], depth + 1), orelse=_lift_one(variants[1], depth + 1)), s)]
     return [s]
 
 
@@ -710,6 +855,7 @@ class Normalizer:
             body = fold_trivial(body)
             body = attribute_aliases(body)
             body = self.copy_propagate(body, fi)
+            body = adjacent_temps(body, body)
             body = canon_block(body)
             body = lift_ifexp(body)
             if not body:
@@ -1408,8 +1554,6 @@ class Normalizer:
                 for h in s.handlers:
                     h.body = self.unroll_block(h.body, fi)
             r = self._unroll_for(s, fi) if isinstance(s, ast.For) else None
-            if r is None:
-                r = self._lookup_chain(s, fi)
             out.extend(r if r is not None else [s])
         return out
 
